@@ -78,7 +78,7 @@ EncAJ(ms, h) ==
                   [id |-> PL(ms.con[b].id), con |-> EncContainer(ms, b)]]]
 
 (* ---- the lexed text in the same form (syntactic only) ---- *)
-NameOf(s) == IF s.qn = <<>> THEN [p |-> "?", l |-> <<>>] ELSE s.qn[1]
+NameOf(s) == IF s.j # "str" THEN [p |-> "?", l |-> <<>>] ELSE IF s.qn = <<>> THEN [p |-> "?", l |-> <<>>] ELSE s.qn[1]
 AbsLex(tp, n) ==
   IF n.j = "num" THEN [k |-> "num", v |-> n.v, isint |-> n.isint]
   ELSE IF tp = [p |-> "xsd", l |-> <<"dateTime">>] THEN [k |-> "iso", v |-> n.iso]
@@ -97,9 +97,9 @@ AbsBody(b) ==
   { LET key == NameOf(b.items[i][1])
         v == b.items[i][2]
         formal == key.p = "prov" /\ Len(key.l) = 1 /\ key.l[1] \in JRefAttrs \cup JTimeAttrs
-    IN IF formal /\ key.l[1] \in JRefAttrs
+    IN IF formal /\ key.l[1] \in JRefAttrs /\ v.j = "str"
        THEN [key |-> key, list |-> v.j = "arr", vals |-> {[j |-> "name", p |-> NameOf(v).p, l |-> NameOf(v).l]}]
-       ELSE IF formal
+       ELSE IF formal /\ key.l[1] \in JTimeAttrs /\ v.j = "str"
        THEN [key |-> key, list |-> v.j = "arr", vals |-> {[j |-> "iso", v |-> v.iso]}]
        ELSE [key |-> key, list |-> v.j = "arr",
              vals |-> IF v.j = "arr" THEN {AbsVal(v.items[k]) : k \in 1..Len(v.items)} ELSE {AbsVal(v)}]
